@@ -127,6 +127,21 @@ def run(chk):
   walks = [(n, c) for n, c in v.all_calls() if call_tail(c) == 'Walk']
   if not walks:
     raise AnalysisError('CallFunctor: renaming Walk not found')
+  def element_of_clones(a_):
+    """the appended value is the variable of a loop over `rules` / over
+    what AllRulesOf returned"""
+    if dotted(a_) == 'r':
+      return True
+    for l_ in walk_local(v.fi.node):
+      if isinstance(l_, ast.For) and isinstance(l_.target, ast.Name) and \
+          dotted(a_) == l_.target.id:
+        it_ = v.expand(l_.iter, 3)
+        if dotted(l_.iter) == 'rules' or (
+            isinstance(it_, ast.Call) and
+            'functors.Functors.AllRulesOf' in repo.resolve(v.fi, it_)) or \
+            'AllRulesOf(' in norm(it_, 200):
+          return True
+    return False
   srcs = v.assigned_from('rules')
   ok_src = True
   for s in srcs:
@@ -143,7 +158,11 @@ def run(chk):
     elif isinstance(s, ast.Name):
       # rules_to_update: filled only with elements of `rules`
       apps = [c for n, c in v.all_calls() if call_tail(c) == 'append' and receiver(c) == s.id]
-      ok_src = ok_src and bool(apps) and all(dotted(c.args[0]) == 'r' for c in apps)
+      ok_src = ok_src and bool(apps) and all(element_of_clones(c.args[0]) for c in apps)
+    elif isinstance(s, ast.List) and not s.elts:
+      # rules = [] filled by appends: every appended value is one of the clones
+      apps = [c for n, c in v.all_calls() if call_tail(c) == 'append' and receiver(c) == 'rules']
+      ok_src = ok_src and bool(apps) and all(element_of_clones(c.args[0]) for c in apps)
     else:
       ok_src = False
   for n, c in walks:
@@ -159,15 +178,41 @@ def run(chk):
     key = 'depends-on-an-argument'
   sel = [x for x in walk_local(v.fi.node) if isinstance(x, ast.ListComp) and
          any('args_of' in norm(i) for g in x.generators for i in g.ifs)]
+  loop_sel = []
   if not sel:
+    # the same selection written as a loop with appends: one production per
+    # append, selected under the conditions on its path (if / elif)
+    from sa import shapes
+    lists = {x.targets[0].id for x in walk_local(v.fi.node) if isinstance(x, ast.Assign) and
+             len(x.targets) == 1 and isinstance(x.targets[0], ast.Name) and
+             isinstance(x.value, ast.List) and not x.value.elts}
+    for pr_ in shapes.productions(v.fi.node, extra=lists):
+      if pr_.kind == 'append' and any('args_of' in norm(c_, 200) for c_ in pr_.conds) and \
+          any('AllRulesOf' in norm(v.expand(it_, 3), 200) for _, it_ in pr_.gens):
+        loop_sel.append(pr_)
+    ast.fix_missing_locations(v.fi.node)
+  if not sel and not loop_sel:
     raise AnalysisError('CallFunctor: selection of the rules to clone not recognised')
+  class _LC(object):
+    pass
+  if loop_sel:
+    # the element is selected when ANY of its appends is reached
+    lc_ = _LC()
+    alts = [c_[0] if len(c_) == 1 else ast.BoolOp(op=ast.And(), values=list(c_))
+            for c_ in (pr_.conds for pr_ in loop_sel)]
+    lc_.ifs = [alts[0] if len(alts) == 1 else ast.BoolOp(op=ast.Or(), values=alts)]
+    lc_.node = loop_sel[0].node
+    sel.append(lc_)
   for lc in sel:
-    cond = lc.generators[0].ifs
+    cond = lc.generators[0].ifs if isinstance(lc, ast.ListComp) else lc.ifs
     test = cond[0] if len(cond) == 1 else ast.BoolOp(op=ast.And(), values=list(cond))
 
     def expr(node, st, interp):
       if isinstance(node, ast.BinOp) and isinstance(node.op, ast.BitAnd) and \
-          'args_of' in norm(node) and 'args' in {n.id for n in ast.walk(node) if isinstance(n, ast.Name)}:
+          'args_of' in norm(node) and (
+              'args' in {n.id for n in ast.walk(node) if isinstance(n, ast.Name)} or
+              any(isinstance(side, ast.Name) and 'args_map' in norm(v.expand_flow(side, 3), 100)
+                  for side in (node.left, node.right))):
         return Dep()
       return NotImplemented
 
@@ -181,7 +226,8 @@ def run(chk):
            'a rule whose predicate depends on a substituted argument is always selected for cloning',
            'the selection `%s` can reject a predicate that depends on a substituted '
            'argument: it is not re-created, so the made predicate keeps reading the '
-           'original argument through it' % norm(test, 90), fi=v.fi, node=lc)
+           'original argument through it' % norm(test, 90), fi=v.fi,
+           node=lc if isinstance(lc, ast.ListComp) else lc.node)
   shared = []
   for x in walk_local(v.fi.node):
     if isinstance(x, ast.Attribute) and dotted(x) in ('self.rules_of', 'self.rules') \
